@@ -10,6 +10,7 @@ fmt.replace('\\n', newline).format(*positional, **named)).
 Tolerances (the statement is silent): a final line end at the end of the
 script, and one blank directly after a printf text that ends in a line break.
 """
+import logging
 import re
 import sys
 
@@ -209,6 +210,8 @@ def printf_stmt(rng):
             parts.append('{' + spec_for(rng, v) + '}')
     if style == 'numbered':
         k = rng.randint(1, 3)
+        if rng.random() < 0.12:
+            k = rng.choice([10, 11, 12, 14, 21])     # {10}, {11}, ...
         for _ in range(k):
             t, v = value(rng)
             args_txt.append(t)
@@ -482,9 +485,21 @@ def run_shard(ctx):
         ctx.case('S:' + script, nontrivial=outputs >= 2)
         if REPEATED[0]:
             ctx.count('scripts_with_repeated_field_numbers')
-        check_case(ctx, script, segs, final_nl,
-                   {'script': script, 'segments': segs, 'final_nl': final_nl,
-                    'repeated_field_numbers': REPEATED[0]})
+        # what a script writes does not depend on how much the program logs
+        # (`lsrun -v`, log_level DEBUG in a configuration file)
+        verbose = i % 7 == 5
+        root = logging.getLogger()
+        level = root.level
+        if verbose:
+            root.setLevel(logging.DEBUG)
+            ctx.count('scripts_run_at_log_level_debug')
+        try:
+            check_case(ctx, script, segs, final_nl,
+                       {'script': script, 'segments': segs,
+                        'final_nl': final_nl, 'log_level_debug': verbose,
+                        'repeated_field_numbers': REPEATED[0]})
+        finally:
+            root.setLevel(level)
         if i % 1000 < ctx.nshards:
             ctx.sample({'script': script, 'expected_stdout':
                         ''.join(segs).replace('\x00', '( )')})
